@@ -31,6 +31,7 @@ import ast
 import asyncio
 import inspect
 import itertools
+import socket as _socket
 from types import SimpleNamespace
 from typing import Any
 
@@ -232,8 +233,8 @@ G: dict[str, Any] = {}
 
 
 class _FakeConn:
-    def __init__(self) -> None:
-        self.reads = 0
+    def __init__(self, answers: bool = True) -> None:
+        self.reads = 0 if answers else 1
 
     async def write_diag_request(self, data: bytes) -> None:
         return None
@@ -250,11 +251,12 @@ class _FakeConn:
 
 class _FakeHSFZConnection:
     last: Any = None
+    silent: Any = None  # set of destination addresses that do not answer the probe
 
     @classmethod
     async def connect(cls, host: str, port: int, src_addr: int, dst_addr: int, ack_timeout: float) -> _FakeConn:
         cls.last = (host, port, src_addr, dst_addr, ack_timeout)
-        return _FakeConn()
+        return _FakeConn(cls.silent is None or dst_addr not in cls.silent)
 
 
 def worker_init() -> None:
@@ -303,10 +305,8 @@ def worker_init() -> None:
     import gallia.commands.discover.hsfz as dhsfz
     import gallia.commands.discover.uds.isotp as disotp
 
-    dhsfz.HSFZConnection = _FakeHSFZConnection  # type: ignore[misc,assignment]
     G["HSFZDiscoverer"] = dhsfz.HSFZDiscoverer
-    G["isotp_block"] = _extract_isotp_block(disotp)
-    G["isotp_mod"] = disotp
+    _install_fakes(ddoip, dhsfz, disotp)
     G["doip_fstrings"] = _extract_doip_fstrings(ddoip)
     G["doip_mod"] = ddoip
 
@@ -330,40 +330,6 @@ def _exc(e: BaseException) -> str:
 
 # ---------------------------------------------------------------------------------------------
 # AST extraction of embedded URI builders
-
-
-def _is_assign_to(st: ast.stmt, name: str) -> bool:
-    return isinstance(st, ast.Assign) and len(st.targets) == 1 and isinstance(st.targets[0], ast.Name) and st.targets[0].id == name
-
-
-def _extract_isotp_block(mod: Any) -> Any:
-    """statements from ``target_args = {}`` up to ``<name> = TargetURI.from_parts(...)`` in the scanner source"""
-    try:
-        tree = ast.parse(inspect.getsource(mod))
-    except (OSError, SyntaxError):
-        return None
-    for node in ast.walk(tree):
-        for fld in ("body", "orelse", "finalbody"):
-            stmts = getattr(node, fld, None)
-            if not isinstance(stmts, list):
-                continue
-            for i, st in enumerate(stmts):
-                if not (_is_assign_to(st, "target_args") and isinstance(st.value, ast.Dict)):  # type: ignore[attr-defined]
-                    continue
-                for j in range(i + 1, len(stmts)):
-                    sj = stmts[j]
-                    if (
-                        isinstance(sj, ast.Assign)
-                        and len(sj.targets) == 1
-                        and isinstance(sj.targets[0], ast.Name)
-                        and isinstance(sj.value, ast.Call)
-                        and isinstance(sj.value.func, ast.Attribute)
-                        and sj.value.func.attr == "from_parts"
-                    ):
-                        block = ast.Module(body=stmts[i : j + 1], type_ignores=[])
-                        ast.fix_missing_locations(block)
-                        return (compile(block, "<isotp-uri-block>", "exec"), sj.targets[0].id)
-    return None
 
 
 DOIP_NAMES = {
@@ -798,76 +764,6 @@ def run_hsfz(res: Result, hosts: list[str]) -> None:
         res.sample({"hsfz-probe": ["192.168.0.1", 6801, 0xF4, 0x10, "ack_timeout=2.0"], "emits": "hsfz://192.168.0.1:6801?src_addr=0xf4&dst_addr=0x10&ack_timeout=2000"}, cap=1)
 
 
-ISOTP_IDS = [0, 1, 0x7FF, 0x1FFFFFFF]
-
-
-def check_isotp_block(res: Result, iface: str, ext: bool, tester: int, can_id: int, addr: int, padding: int | None, is_fd: bool, is_ext: bool) -> None:
-    blk = G["isotp_block"]
-    if blk is None:
-        res.uncovered.add("builder:isotp-main-block(not found in source)")
-        return
-    res.count("evaluations")
-    _kind(res, "builder-isotp")
-    res.seen("nontrivial", ("isotp", iface, ext, tester, can_id, addr, padding, is_fd, is_ext))
-    rd = {"kind": "isotp", "args": [iface, ext, tester, can_id, addr, padding, is_fd, is_ext]}
-    site = "builder:isotp-main"
-    code, var = blk
-    ns = dict(vars(G["isotp_mod"]))
-    ns.update(
-        self=SimpleNamespace(config=SimpleNamespace(extended_addr=ext, tester_addr=tester, padding=padding, target=SimpleNamespace(hostname=iface))),
-        transport=SimpleNamespace(config=SimpleNamespace(is_fd=is_fd, is_extended=is_ext)),
-        ID=can_id,
-        addr=addr,
-    )
-
-    def run() -> Any:
-        exec(code, ns)  # noqa: S102 - statements cut out of gallia's own scanner
-        return ns[var]
-
-    ok, u = call(run)
-    if not ok:
-        res.violate(f"C20|{site}|build-raises", f"{rd['args']}: {_exc(u)}", rd)
-        return
-    raw = str(u)
-    ok, v = call(G["TargetURI"], raw)
-    ok2, got = call(lambda: (str(v.scheme), v.hostname, v.port)) if ok else (False, v)
-    if not ok2 or got != ("isotp", iface, None):
-        res.violate(f"C20|{site}|netloc", f"{raw!r}: (scheme, hostname, port) -> {_exc(got) if not ok2 else got!r}, expected isotp/{iface}/None", rd)
-        return
-    emitted = ns.get("target_args")
-    ok, qs = call(lambda: v.qs_flat)
-    if not ok or not isinstance(emitted, dict) or qs != {str(k): str(x) for k, x in emitted.items()}:
-        res.violate(f"C20|{site}|qs_flat", f"{raw!r}: qs_flat -> {qs!r}, emitted {emitted!r}", rd)
-        return
-    model = G["models"]["isotp"]
-    ok, cfg = call(lambda: model(**qs))
-    if not ok:
-        res.violate(f"C20|{site}|config-rejected", f"{raw!r}: ISOTPConfig -> {_exc(cfg)}", rd)
-        return
-    want: dict[str, Any] = {"is_fd": is_fd, "is_extended": is_ext, "tx_padding": padding, "rx_padding": padding}
-    if ext:
-        want.update(ext_address=can_id, rx_ext_address=tester & 0xFF, src_addr=tester, dst_addr=addr)
-    else:
-        want.update(ext_address=None, rx_ext_address=None, src_addr=can_id, dst_addr=addr)
-    for name, w in want.items():
-        if getattr(cfg, name, "<missing>") != w:
-            res.violate(f"C20|{site}|{name}|wrong-value", f"{raw!r}: {name} = {getattr(cfg, name, None)!r}, expected {w!r}", rd)
-
-
-def run_isotp(res: Result) -> None:
-    for iface in ("can0", "vcan0", "can-fd.1"):
-        for ext in (False, True):
-            for tester in (0, 0x6F1, 0x1FFFFFFF):
-                for can_id in ISOTP_IDS:
-                    for addr in ISOTP_IDS:
-                        for padding in (None, 0, 0xAA, 0xFF):
-                            for is_fd in (False, True):
-                                for is_ext in (False, True):
-                                    check_isotp_block(res, iface, ext, tester, can_id, addr, padding, is_fd, is_ext)
-    if G["isotp_block"] is None:
-        res.uncovered.add("builder:isotp-main-block(not found in source)")
-
-
 def check_doip_fstring(res: Result, label: str, host: str, port: int, pv: int, rat: int, src: int, tgt: int) -> None:
     entry = next((e for e in G["doip_fstrings"] if e[0] == label), None)
     if entry is None:
@@ -1135,6 +1031,706 @@ def run_r2(res: Result, tier: str, ngroups: int, prefix: tuple[int, ...], ws: bo
 
 
 # ---------------------------------------------------------------------------------------------
+# fakes: sockets, connections, artifact files, database.  They are the only seams; everything between
+# the scanner's probe loop and the emitted URI, and between the URI and the socket, is gallia's code.
+
+
+class FakeSocket:
+    def __init__(self, *a: Any) -> None:
+        self.args = a
+        self.log: list[tuple[Any, ...]] = []
+
+    def setblocking(self, flag: bool) -> None:
+        self.log.append(("setblocking", flag))
+
+    def setsockopt(self, level: int, opt: int, value: Any) -> None:
+        self.log.append(("opt", level, opt, value))
+
+    def bind(self, addr: Any) -> None:
+        self.log.append(("bind", addr))
+
+    def close(self) -> None:
+        self.log.append(("close",))
+
+    def fileno(self) -> int:
+        return -1
+
+
+class SocketShim:
+    """stands in for the ``socket`` module inside gallia.transports.isotp / gallia.transports.can"""
+
+    def __init__(self) -> None:
+        self.created: list[FakeSocket] = []
+
+    def __getattr__(self, name: str) -> Any:
+        return getattr(_socket, name)
+
+    def socket(self, *a: Any, **kw: Any) -> FakeSocket:
+        sock = FakeSocket(*a)
+        self.created = [sock]
+        return sock
+
+
+class ConnRecorder:
+    """stands in for DoIPConnection / HSFZConnection inside the *transport* modules: records what connect() passes on"""
+
+    calls: list[Any] = []
+
+    @classmethod
+    async def connect(cls, *a: Any, **kw: Any) -> Any:
+        cls.calls.append(("connect", a, kw))
+        return cls()
+
+    async def write_routing_activation_request(self, rat: Any) -> None:
+        type(self).calls.append(("rat", int(rat)))
+
+    async def close(self) -> None:
+        return None
+
+
+class FakeFile:
+    def __init__(self, lines: list[str]) -> None:
+        self.lines = lines
+
+    def __enter__(self) -> "FakeFile":
+        return self
+
+    def __exit__(self, *a: Any) -> None:
+        return None
+
+    def write(self, text: str) -> int:
+        self.lines.append(text)
+        return len(text)
+
+
+class FakePath:
+    def __init__(self, files: dict[str, list[str]], name: str) -> None:
+        self.files, self.name = files, name
+
+    def open(self, mode: str = "r") -> FakeFile:
+        if "w" in mode:
+            self.files[self.name] = []
+        return FakeFile(self.files.setdefault(self.name, []))
+
+    def __str__(self) -> str:
+        return f"<artifacts>/{self.name}"
+
+
+class FakeDir:
+    def __init__(self) -> None:
+        self.files: dict[str, list[str]] = {}
+
+    def joinpath(self, name: str) -> FakePath:
+        return FakePath(self.files, name)
+
+    def lines(self, name: str) -> list[str]:
+        return [x.rstrip("\n") for x in self.files.get(name, [])]
+
+
+class FakeDB:
+    def __init__(self) -> None:
+        self.results: list[str] = []
+
+    async def connect(self) -> None:
+        return None
+
+    async def disconnect(self) -> None:
+        return None
+
+    async def insert_discovery_run(self, what: str) -> None:
+        return None
+
+    async def insert_discovery_result(self, url: str) -> None:
+        self.results.append(url)
+
+
+class FakeRawCAN:
+    """CAN bus with ECUs: ``answer`` maps the probed key (CAN id, or extended address byte in extended mode) to
+    the CAN id the ECU answers from"""
+
+    SCHEME = "can-raw"
+    current: Any = None
+
+    def __init__(self, is_fd: bool, is_extended: bool, ext_mode: bool, answer: dict[int, int]) -> None:
+        self.config = SimpleNamespace(is_fd=is_fd, is_extended=is_extended)
+        self.ext_mode, self.answer = ext_mode, answer
+        self.queue: list[tuple[int, bytes]] = []
+
+    @classmethod
+    async def connect(cls, target: Any, timeout: float | None = None) -> Any:
+        return cls.current
+
+    async def get_idle_traffic(self, sniff_time: float) -> list[int]:
+        return []
+
+    def set_filter(self, can_ids: list[int], inv_filter: bool = False) -> None:
+        return None
+
+    async def sendto(self, data: bytes, dst: int, timeout: float | None = None, tags: Any = None) -> int:
+        key = data[0] if self.ext_mode else dst
+        self.queue = [(self.answer[key], bytes.fromhex("027e00"))] if key in self.answer else []
+        return len(data)
+
+    async def recvfrom(self, timeout: float | None = None, tags: Any = None) -> tuple[int, bytes]:
+        if self.queue:
+            return self.queue.pop(0)
+        raise TimeoutError
+
+    async def close(self) -> None:
+        return None
+
+
+class FakeDoIPGateway:
+    """stands in for DoIPConnection inside commands/discover/doip.py"""
+
+    scen: Any = None  # SimpleNamespace(allowed={(rat, src)}, unknown=set, unreachable=set, responsive=set)
+    codes: Any = None
+
+    def __init__(self, src: int, target: int) -> None:
+        self.src_addr, self.target_addr = src, target
+        self.queue: asyncio.Queue[Any] = asyncio.Queue()
+
+    @classmethod
+    async def connect(cls, host: str, port: int, src_addr: int, target_addr: int, **kw: Any) -> Any:
+        return cls(src_addr, target_addr)
+
+    async def write_routing_activation_request(self, rat: Any) -> None:
+        if (int(rat), self.src_addr) not in self.scen.allowed:
+            raise self.codes.denied(self.codes.unknown_source)
+
+    async def write_diag_request(self, pdu: bytes) -> None:
+        t = self.target_addr
+        if t in self.scen.unknown:
+            raise self.codes.nack(self.codes.unknown_target)
+        if t in self.scen.unreachable:
+            raise self.codes.nack(self.codes.unreachable)
+        if t in self.scen.responsive:
+            self.queue.put_nowait((None, SimpleNamespace(SourceAddress=t, TargetAddress=self.src_addr, UserData=bytes.fromhex("7e00"))))
+
+    async def read_diag_request_raw(self) -> Any:
+        return await self.queue.get()
+
+    async def close(self) -> None:
+        return None
+
+
+class AsyncioShim:
+    """``asyncio`` for commands/discover/doip.py with sleeps that only yield (the scanner's waits are not under test)"""
+
+    def __getattr__(self, name: str) -> Any:
+        return getattr(asyncio, name)
+
+    @staticmethod
+    async def sleep(delay: float, result: Any = None) -> Any:
+        for _ in range(3):
+            await asyncio.sleep(0)
+        return result
+
+
+def _install_fakes(ddoip: Any, dhsfz: Any, disotp: Any) -> None:
+    import gallia.transports.can as tcan
+    import gallia.transports.doip as tdoip
+    import gallia.transports.hsfz as thsfz
+    import gallia.transports.isotp as tisotp
+
+    shim = SocketShim()
+    tisotp.s = shim  # type: ignore[attr-defined]
+    tcan.s = shim  # type: ignore[attr-defined]
+    tdoip.DoIPConnection = ConnRecorder  # type: ignore[misc,assignment]
+    thsfz.HSFZConnection = ConnRecorder  # type: ignore[misc,assignment]
+    dhsfz.HSFZConnection = _FakeHSFZConnection
+    disotp.RawCANTransport = FakeRawCAN
+    ddoip.DoIPConnection = FakeDoIPGateway
+    ddoip.asyncio = AsyncioShim()
+    FakeDoIPGateway.codes = SimpleNamespace(
+        denied=tdoip.DoIPRoutingActivationDeniedError,
+        nack=tdoip.DoIPNegativeAckError,
+        unknown_source=int(tdoip.RoutingActivationResponseCodes.UnknownSourceAddress),
+        unknown_target=int(tdoip.DiagnosticMessageNegativeAckCodes.UnknownTargetAddress),
+        unreachable=int(tdoip.DiagnosticMessageNegativeAckCodes.TargetUnreachable),
+    )
+    G.update(
+        shim=shim,
+        transports={"isotp": tisotp.ISOTPTransport, "can-raw": tcan.RawCANTransport, "doip": tdoip.DoIPTransport, "hsfz": thsfz.HSFZTransport},
+        IsotpDiscoverer=disotp.IsotpDiscoverer,
+        DoIPDiscoverer=ddoip.DoIPDiscoverer,
+    )
+
+
+def _default(scheme: str, field: str) -> Any:
+    return G["models"][scheme].model_fields[field].default
+
+
+# ---------------------------------------------------------------------------------------------
+# section: what the transport does with an accepted URI ("wire"): real <Transport>.connect, fake socket/connection
+
+
+def wire_check(res: Result, loop: Any, site: str, scheme: str, url: str, host: str, want: dict[str, Any], rd: dict[str, Any]) -> bool:
+    """``want``: the numeric settings the URI denotes (None = parameter absent); host/port for ip transports"""
+    transport = G["transports"][scheme]
+    ConnRecorder.calls = []
+    G["shim"].created = []
+    ok, t = call(lambda: loop.run_until_complete(transport.connect(url)))
+    if not ok:
+        res.violate(f"C20|{site}|connect-raises", f"{transport.__name__}.connect({url!r}) raised {_exc(t)}", rd)
+        return False
+    bad: list[tuple[str, str]] = []
+    if scheme == "isotp":
+        full = dict(want)
+        for f in ("frame_txtime", "tx_dl", "is_fd", "is_extended"):
+            if full.get(f) is None:
+                full[f] = _default("isotp", f)
+        log = G["shim"].created[0].log if G["shim"].created else []
+        bad = M.isotp_wire_mismatches(host, full, log)
+    elif scheme == "can-raw":
+        log = G["shim"].created[0].log if G["shim"].created else []
+        binds = [e[1] for e in log if e[0] == "bind"]
+        if binds != [(host,)]:
+            bad.append(("bind", f"wrong-value: expected bind(({host!r},)), saw {binds!r}"))
+        fd = [e for e in log if e[0] == "opt" and e[1] == M.SOL_CAN_RAW and e[2] == M.CAN_RAW_FD_FRAMES and e[3]]
+        if bool(fd) != bool(want.get("is_fd")):
+            bad.append(("is_fd", f"wrong-value: is_fd={want.get('is_fd')} but CAN_RAW_FD_FRAMES set {len(fd)} times"))
+        cfg = getattr(t, "config", None)
+        for f in ("dst_id", "is_extended"):
+            w = want.get(f) if want.get(f) is not None else _default("can-raw", f)
+            if getattr(cfg, f, "<missing>") != w:
+                bad.append((f, f"wrong-value: URI says {f}={w!r}, transport holds {getattr(cfg, f, None)!r}"))
+    else:
+        calls = ConnRecorder.calls
+        conn = next((c for c in calls if c[0] == "connect"), None)
+        if conn is None:
+            bad.append(("connect", "wrong-value: connection never opened"))
+        elif scheme == "hsfz":
+            ack = want["ack_timeout"] if want.get("ack_timeout") is not None else _default("hsfz", "ack_timeout")
+            port = want["port"] if want.get("port") is not None else 6801
+            a = conn[1]
+            exp = (port, want["src_addr"], want["dst_addr"])
+            if len(a) < 5 or M.norm_host(a[0]) != M.norm_host(host) or tuple(a[1:4]) != exp:
+                bad.append(("connect", f"wrong-value: HSFZConnection.connect{a!r}, URI denotes ({host!r}, {exp})"))
+            elif abs(a[4] * 1000 - ack) > 1e-6:
+                bad.append(("ack_timeout", f"wrong-value: URI says {ack} ms, connection gets {a[4]!r} s"))
+        else:
+            port = want["port"] if want.get("port") is not None else 13400
+            rat = want["activation_type"] if want.get("activation_type") is not None else _default("doip", "activation_type")
+            pv = want["protocol_version"] if want.get("protocol_version") is not None else _default("doip", "protocol_version")
+            a, kw = conn[1], conn[2]
+            exp = (port, want["src_addr"], want["target_addr"])
+            if len(a) < 4 or M.norm_host(a[0]) != M.norm_host(host) or tuple(a[1:4]) != exp:
+                bad.append(("connect", f"wrong-value: DoIPConnection.connect{a!r}, URI denotes ({host!r}, {exp})"))
+            if int(kw.get("protocol_version", a[4] if len(a) > 4 else -1)) != int(pv):
+                bad.append(("protocol_version", f"wrong-value: URI says {int(pv)}, connection gets {kw!r}"))
+            rats = [c[1] for c in calls if c[0] == "rat"]
+            if rats != [int(rat)]:
+                bad.append(("activation_type", f"wrong-value: URI says {int(rat):#x}, routing activation requests sent: {rats!r}"))
+    for field, what in bad:
+        res.violate(f"C20|{site}|{field}|{what.split(':')[0]}", f"{url!r}: {what}", rd)
+    return not bad
+
+
+def _spell_args(want: dict[str, Any], fields: list[str], how: str) -> dict[str, str]:
+    args: dict[str, str] = {}
+    for f in fields:
+        v = want.get(f)
+        if v is None:
+            continue
+        args[f] = BOOL_TEXT[v] if isinstance(v, bool) else M.spell(v, how)
+    return args
+
+
+ISOTP_FIELDS = ["src_addr", "dst_addr", "ext_address", "rx_ext_address", "tx_padding", "rx_padding", "frame_txtime", "tx_dl", "is_extended", "is_fd"]
+BYTE_FIELDS = ["ext_address", "rx_ext_address", "tx_padding", "rx_padding"]
+
+
+def check_wire_case(res: Result, loop: Any, scheme: str, host: str, port: int | None, want: dict[str, Any], how: str) -> None:
+    res.count("evaluations")
+    _kind(res, f"wire-{scheme}")
+    fields = [f[0] for f in MODELS[scheme][2]]
+    args = _spell_args(want, fields, how)
+    rd = {"kind": "wire", "scheme": scheme, "host": host, "port": port, "want": want, "how": how}
+    res.seen("nontrivial", ("wire", scheme, host, port, tuple(sorted((k, v) for k, v in want.items() if v is not None))))
+    ok, u = call(G["TargetURI"].from_parts, scheme, host, port, args)
+    if not ok:
+        res.violate(f"C20|wire:{scheme}|build-raises", f"from_parts({scheme}, {host}, {port}, {args}) raised {_exc(u)}", rd)
+        return
+    full = dict(want)
+    full["port"] = port
+    wire_check(res, loop, f"wire:{scheme}", scheme, str(u), host, full, rd)
+
+
+def run_wire(res: Result, scheme: str, part: int) -> None:
+    loop = asyncio.new_event_loop()
+    try:
+        if scheme == "isotp" and part == 0:
+            # every byte value (and absent) of each one-byte setting, others absent / others present
+            for f in BYTE_FIELDS:
+                for others in (None, 0x5A):
+                    for v in [None, *range(256)]:
+                        want = {"src_addr": 0x7E0, "dst_addr": 0x7E8, **{g: others for g in BYTE_FIELDS}}
+                        want[f] = v
+                        check_wire_case(res, loop, "isotp", "can0", None, want, "hex" if (v or 0) % 2 else "dec")
+        elif scheme == "isotp":
+            # full product of boundary values of all settings; part selects (is_fd, is_extended)
+            is_fd, is_ext = bool(part & 1), bool(part & 2)
+            src, dst = (0x18DA00F1, 0x1FFFFFFF) if is_ext else (0, 0x7FF)
+            bvals = [None, 0, 1, 0xFF]
+            n = 0
+            for ext, rxe, txp, rxp in itertools.product(bvals, repeat=4):
+                for txt in (None, 0, 0xFFFFFFFF):
+                    for tx_dl in (None, 8, 64):
+                        for fd_spelled in (is_fd, None) if not is_fd else (True,):
+                            want = dict(src_addr=src, dst_addr=dst, ext_address=ext, rx_ext_address=rxe, tx_padding=txp, rx_padding=rxp)
+                            want.update(frame_txtime=txt, tx_dl=tx_dl, is_fd=fd_spelled, is_extended=is_ext or None)
+                            n += 1
+                            check_wire_case(res, loop, "isotp", "vcan0" if n % 2 else "can0", None, want, M.SPELLINGS[n % 4])
+        elif scheme == "can-raw":
+            for iface in ("can0", "vcan0", "can-fd.1"):
+                for is_fd in (None, True, False):
+                    for is_ext in (None, True, False):
+                        for dst_id in (None, 0, 0x7FF, 0x1FFFFFFF):
+                            check_wire_case(res, loop, "can-raw", iface, None, dict(dst_id=dst_id, is_fd=is_fd, is_extended=is_ext), "hex")
+        elif scheme == "hsfz":
+            for host in WIRE_HOSTS:
+                for port in (None, 0, 6801, 65535):
+                    for src in (0, 0xF4, 0xFF):
+                        for dst in (0, 0x10, 0xFF):
+                            for ack in (None, 0, 1, 1000, 65535):
+                                check_wire_case(res, loop, "hsfz", host, port, dict(src_addr=src, dst_addr=dst, ack_timeout=ack), "hex" if (src + dst) % 2 else "dec")
+        elif scheme == "doip":
+            n = 0
+            for host in WIRE_HOSTS:
+                for port in (None, 0, 13400, 65535):
+                    for src in (0, 0x0E00, 0xFFFF):
+                        for tgt in (0, 1, 0xFFFF):
+                            for rat in (None, 0, 1, 0xE0, 0xFF):
+                                for pv in (None, 2, 3):
+                                    n += 1
+                                    want = dict(src_addr=src, target_addr=tgt, activation_type=rat, protocol_version=pv)
+                                    check_wire_case(res, loop, "doip", host, port, want, M.SPELLINGS[n % 4])
+    finally:
+        loop.close()
+
+
+WIRE_HOSTS = ["ecu-1.example.com", "ECU1.Example.COM", "0.0.0.0", "192.168.0.1", "::1", "fe80::1ff:fe23:4567:890a"]
+
+
+def replay_wire(res: Result, doc: dict[str, Any]) -> None:
+    loop = asyncio.new_event_loop()
+    try:
+        check_wire_case(res, loop, doc["scheme"], doc["host"], doc["port"], doc["want"], doc["how"])
+    finally:
+        loop.close()
+
+
+# ---------------------------------------------------------------------------------------------
+# section: strict notation - a digit string without prefix is decimal, bare hex digits are no integer
+
+BARE_HEX = ["f1", "ff", "0a", "1f", "a", "7f", "0f", "abc", "F1", "0x", "0b2", "0o8", "1_f"]
+BARE_DEC = [("42", 42), ("10", 10), ("99", 99), ("87", 87), ("255", 255), ("100", 100)]
+
+
+def _notation_targets() -> dict[str, Any]:
+    t: dict[str, Any] = {
+        "auto_int": G["auto_int"],
+        "AutoInt": G["AutoInt"],
+        "unravel": lambda x: G["unravel"](x)[0],
+        "unravel-range": lambda x: G["unravel"](f"{x}-{x}")[0],
+        "Ranges": lambda x: G["Ranges"](x)[0],
+        "unravel_2d-key": lambda x: next(iter(G["unravel_2d"](x))),
+    }
+    for scheme, (_m, mname, fields) in MODELS.items():
+        model = G["models"].get(scheme)
+        if model is None:
+            continue
+        req = {f[0]: "1" for f in fields if f[2]}
+        for f in fields:
+            if f[1] == "int":
+                t[f"{mname}.{f[0]}"] = lambda x, model=model, req=req, name=f[0]: getattr(model(**{**req, name: x}), name)
+    return t
+
+
+def check_notation(res: Result, entry: str, text: str, value: int | None) -> None:
+    res.count("evaluations")
+    _kind(res, "notation")
+    res.seen("nontrivial", ("notation", entry, text))
+    rd = {"kind": "notation", "entry": entry, "text": text, "value": value}
+    ok, out = call(_notation_targets()[entry], text)
+    if value is None:
+        if ok:
+            res.violate(f"C20|{entry}|bare-hex-accepted", f"{entry}: {text!r} is no decimal/0x/0o/0b numeral but is accepted as {out!r}", rd)
+    elif not ok:
+        res.violate(f"C20|{entry}|decimal-rejected", f"{entry}: {text!r} raised {_exc(out)}, expected {value}", rd)
+    elif out != value:
+        res.violate(f"C20|{entry}|decimal-wrong-value", f"{entry}: {text!r} -> {out!r}, expected decimal {value}", rd)
+
+
+def run_notation(res: Result) -> None:
+    for entry in _notation_targets():
+        for text in BARE_HEX:
+            check_notation(res, entry, text, None)
+        for text, v in BARE_DEC:
+            check_notation(res, entry, text, v)
+
+
+# ---------------------------------------------------------------------------------------------
+# section: the discovery scanners' own emission code, run for real against fake buses / gateways
+
+
+def check_emitted_isotp(res: Result, loop: Any, url: str, iface: str, want: dict[str, Any], rd: dict[str, Any]) -> None:
+    site = "scanner:isotp"
+    res.count("scanner_uris_checked")
+    ok, v = call(G["TargetURI"], url)
+    ok2, got = call(lambda: (str(v.scheme), v.hostname, v.port)) if ok else (False, v)
+    if not ok2 or got != ("isotp", iface, None):
+        res.violate(f"C20|{site}|netloc", f"{url!r}: (scheme, hostname, port) -> {_exc(got) if not ok2 else got!r}, expected isotp/{iface}/None", rd)
+        return
+    ok, cfg = call(lambda: G["models"]["isotp"](**v.qs_flat))
+    if not ok:
+        res.violate(f"C20|{site}|config-rejected", f"{url!r}: ISOTPConfig -> {_exc(cfg)}", rd)
+        return
+    good = True
+    for name, w in want.items():
+        if getattr(cfg, name, "<missing>") != w:
+            good = False
+            ws = f"{w:#x}" if isinstance(w, int) and not isinstance(w, bool) else repr(w)
+            res.violate(f"C20|{site}|{name}|wrong-value", f"{url!r}: {name} parses back as {getattr(cfg, name, None)!r}, the endpoint that answered has {ws}", rd)
+    if good:
+        wire_check(res, loop, "scanner:isotp|wire", "isotp", url, iface, dict(want), rd)
+
+
+def run_scan_isotp(
+    res: Result, iface: str, ext_mode: bool, tester: int, padding: int | None, is_fd: bool, is_ext: bool, start: int, stop: int, flip: int
+) -> None:
+    """one real IsotpDiscoverer.main() over CAN ids / extended addresses start..stop; every probed key answers
+    (from CAN id ``key ^ flip`` in normal mode, from ``flip + key`` in extended mode)"""
+    answer = {k: (flip + k if ext_mode else k ^ flip) for k in range(start, stop + 1)}
+    FakeRawCAN.current = FakeRawCAN(is_fd, is_ext, ext_mode, answer)
+    inst = object.__new__(G["IsotpDiscoverer"])
+    inst.config = SimpleNamespace(
+        target=G["TargetURI"](f"can-raw://{iface}"), sniff_time=0, pdu=bytes([0x3E, 0x00]), padding=padding, sleep=0, start=start,
+        stop=stop, extended_addr=ext_mode, tester_addr=tester, query=False, info_did=0xF197,
+    )  # fmt: skip
+    inst.artifacts_dir, inst.db_handler = FakeDir(), FakeDB()
+    rd = {"kind": "scan-isotp", "args": [iface, ext_mode, tester, padding, is_fd, is_ext, start, stop, flip]}
+    n = stop - start + 1
+    res.count("evaluations", n)
+    _kind(res, "scanner-isotp", n)
+    res.seen("nontrivial", ("scan-isotp", *rd["args"]))
+    loop = asyncio.new_event_loop()
+    try:
+        ok, exc = call(lambda: loop.run_until_complete(inst.main()))
+        if not ok:
+            res.violate("C20|scanner:isotp|main-raises", f"IsotpDiscoverer.main() {rd['args']}: {_exc(exc)}", rd)
+            return
+        urls = inst.artifacts_dir.lines("ECUs.txt")
+        if urls != inst.db_handler.results or len(urls) != n:
+            res.violate("C20|scanner:isotp|emitted-set", f"{rd['args']}: {n} endpoints answered, ECUs.txt has {len(urls)} URIs, database {len(inst.db_handler.results)}", rd)
+            return
+        for key, url in zip(range(start, stop + 1), urls, strict=True):
+            want: dict[str, Any] = {"is_fd": is_fd, "is_extended": is_ext, "tx_padding": padding, "rx_padding": padding}
+            if ext_mode:
+                want.update(ext_address=key, rx_ext_address=tester & 0xFF, src_addr=tester, dst_addr=answer[key])
+            else:
+                want.update(ext_address=None, rx_ext_address=None, src_addr=key, dst_addr=answer[key])
+            check_emitted_isotp(res, loop, url, iface, want, {**rd, "key": key})
+    finally:
+        loop.close()
+    if ext_mode and tester == 0x6F1 and padding is None and not is_fd and not is_ext:
+        res.sample({"IsotpDiscoverer.main": "extended addressing, tester 0x6f1, every address 0x00..0xff answers", "emits[0x42]": urls[0x42 - start] if start <= 0x42 <= stop else urls[0]}, cap=1)
+
+
+def run_scan_hsfz(res: Result, host: str, port: int, src: int) -> None:
+    """one real HSFZDiscoverer.main() over destination addresses 0..255; all but k % 7 == 3 answer"""
+    silent = {k for k in range(256) if k % 7 == 3}
+    _FakeHSFZConnection.silent = silent
+    inst = object.__new__(G["HSFZDiscoverer"])
+    inst.config = SimpleNamespace(target=G["TargetURI"](f"hsfz://{M.ref_hostport(host, port)}"), src_addr=src, start=0, stop=255, reversed=False, timeout=0.5)
+    inst.artifacts_dir, inst.db_handler = FakeDir(), FakeDB()
+    rd = {"kind": "scan-hsfz", "args": [host, port, src]}
+    res.count("evaluations", 256)
+    _kind(res, "scanner-hsfz", 256)
+    res.seen("nontrivial", ("scan-hsfz", host, port, src))
+    hc = M.host_class(host)
+    loop = asyncio.new_event_loop()
+    try:
+        ok, exc = call(lambda: loop.run_until_complete(inst.main()))
+        _FakeHSFZConnection.silent = None
+        if not ok:
+            res.violate(f"C20|scanner:hsfz|main-raises|{hc}", f"HSFZDiscoverer.main() {rd['args']}: {_exc(exc)}", rd)
+            return
+        urls = inst.artifacts_dir.lines("ECUs.txt")
+        answered = [k for k in range(256) if k not in silent]
+        if urls != inst.db_handler.results or len(urls) != len(answered):
+            res.violate("C20|scanner:hsfz|emitted-set", f"{rd['args']}: {len(answered)} ECUs answered, ECUs.txt has {len(urls)} URIs, database {len(inst.db_handler.results)}", rd)
+            return
+        for dst, url in zip(answered, urls, strict=True):
+            res.count("scanner_uris_checked")
+            ok, v = call(G["TargetURI"], url)
+            ok2, got = call(lambda: (str(v.scheme), v.hostname, v.port)) if ok else (False, v)
+            if not ok2 or got[0] != "hsfz" or M.norm_host(got[1]) != M.norm_host(host) or got[2] != port:
+                res.violate(f"C20|scanner:hsfz|netloc|{hc}", f"{url!r}: (scheme, hostname, port) -> {_exc(got) if not ok2 else got!r}, expected hsfz/{host}/{port}", rd)
+                return
+            ok, cfg = call(lambda: G["models"]["hsfz"](**v.qs_flat))
+            if not ok:
+                res.violate("C20|scanner:hsfz|config-rejected", f"{url!r}: HSFZConfig -> {_exc(cfg)}", rd)
+                return
+            want = {"src_addr": src, "dst_addr": dst, "ack_timeout": 1000}
+            bad = [n for n, w in want.items() if getattr(cfg, n, None) != w]
+            for name in bad:
+                res.violate(f"C20|scanner:hsfz|{name}|wrong-value", f"{url!r}: {name} parses back as {getattr(cfg, name, None)!r}, the ECU that answered has {want[name]:#x}", rd)
+            if not bad:
+                wire_check(res, loop, "scanner:hsfz|wire", "hsfz", url, host, {**want, "port": port}, rd)
+    finally:
+        _FakeHSFZConnection.silent = None
+        loop.close()
+
+
+def run_scan_doip(res: Result, host: str, port: int, pv: int, rat: int, src: int, lo: int, hi: int) -> None:
+    """real DoIPDiscoverer.enumerate_routing_activation_requests + enumerate_target_addresses over target
+    addresses lo..hi: t % 5 == 0 unknown, t % 5 == 1 unreachable, t % 5 >= 3 answer TesterPresent"""
+    rng = range(lo, hi + 1)
+    FakeDoIPGateway.scen = SimpleNamespace(
+        allowed={(rat, src)},
+        unknown={t for t in rng if t % 5 == 0},
+        unreachable={t for t in rng if t % 5 == 1},
+        responsive={t for t in rng if t % 5 >= 3},
+    )
+    inst = object.__new__(G["DoIPDiscoverer"])
+    inst.protocol_version = pv
+    inst.config = SimpleNamespace(start=lo, stop=hi, target=None, timeout=None, tcp_connect_delay=0.0)
+    inst.artifacts_dir, inst.db_handler = FakeDir(), FakeDB()
+    rd = {"kind": "scan-doip", "args": [host, port, pv, rat, src, lo, hi]}
+    n = hi - lo + 1
+    res.count("evaluations", n)
+    _kind(res, "scanner-doip", n)
+    res.seen("nontrivial", ("scan-doip", *rd["args"]))
+    hc = M.host_class(host)
+    site = "scanner:doip"
+    loop = asyncio.new_event_loop()
+
+    def check(url: str, tgt: int | None, where: str) -> bool:
+        res.count("scanner_uris_checked")
+        ok, v = call(G["TargetURI"], url)
+        ok2, got = call(lambda: (str(v.scheme), v.hostname, v.port)) if ok else (False, v)
+        if not ok2 or got[0] != "doip" or M.norm_host(got[1]) != M.norm_host(host) or got[2] != port:
+            res.violate(f"C20|{site}|netloc|{hc}", f"{where} {url!r}: (scheme, hostname, port) -> {_exc(got) if not ok2 else got!r}, expected doip/{host}/{port}", rd)
+            return False
+        qs = v.qs_flat
+        completed = {"target_addr": "0", **qs}
+        ok, cfg = call(lambda: G["models"]["doip"](**completed))
+        if not ok:
+            res.violate(f"C20|{site}|config-rejected", f"{where} {url!r}: DoIPConfig -> {_exc(cfg)}", rd)
+            return False
+        want = {"src_addr": src, "activation_type": rat, "protocol_version": pv, "target_addr": 0 if tgt is None else tgt}
+        bad = [k for k, w in want.items() if getattr(cfg, k, None) != w or (k != "target_addr" and k not in qs) or (tgt is not None and k not in qs)]
+        for k in bad:
+            res.violate(f"C20|{site}|{k}|wrong-value", f"{where} {url!r}: {k} parses back as {getattr(cfg, k, None)!r} ({'present' if k in qs else 'absent'}), the gateway answered for {want[k]:#x}", rd)
+        if not bad and tgt is not None:
+            return wire_check(res, loop, f"{site}|wire", "doip", url, host, {**want, "port": port}, rd)
+        return not bad
+
+    try:
+        ok, out = call(lambda: loop.run_until_complete(inst.enumerate_routing_activation_requests(host, port, [rat, rat ^ 1], [src, src ^ 1], 0.0)))
+        if not ok:
+            res.violate(f"C20|{site}|enumerate_routing_activation_requests-raises", f"{rd['args']}: {_exc(out)}", rd)
+            return
+        targets = list(out[2])
+        if len(targets) != 1 or inst.artifacts_dir.lines("1_valid_routing_activation_requests.txt") != targets:
+            res.violate(f"C20|{site}|emitted-set|activation", f"{rd['args']}: one (type, source) pair is accepted, emitted {targets!r}", rd)
+            return
+        if not check(targets[0], None, "routing-activation"):
+            return
+        ok, out = call(lambda: loop.run_until_complete(inst.enumerate_target_addresses(host, port, rat, src, lo, hi, 0.0, None)))
+        if not ok:
+            res.violate(f"C20|{site}|enumerate_target_addresses-raises", f"{rd['args']}: {_exc(out)}", rd)
+            return
+        scen = FakeDoIPGateway.scen
+        expect = {
+            "3_valid_targets.txt": [t for t in rng if t not in scen.unknown and t not in scen.unreachable],
+            "4_responsive_targets.txt": [t for t in rng if t in scen.responsive],
+            "5_unreachable_targets.txt": [t for t in rng if t in scen.unreachable],
+        }
+        for fname, tgts in expect.items():
+            urls = inst.artifacts_dir.lines(fname)
+            if len(urls) != len(tgts):
+                res.violate(f"C20|{site}|emitted-set|{fname}", f"{rd['args']}: expected {len(tgts)} URIs in {fname}, found {len(urls)}", rd)
+                continue
+            for t, url in zip(tgts, urls, strict=True):
+                if not check(url, t, fname):
+                    break
+        if inst.db_handler.results != inst.artifacts_dir.lines("4_responsive_targets.txt"):
+            res.violate(f"C20|{site}|emitted-set|database", f"{rd['args']}: database has {len(inst.db_handler.results)} URIs, 4_responsive_targets.txt differs", rd)
+    finally:
+        loop.close()
+
+
+SCAN_TESTERS = [0x000, 0x6F1, 0x7FF, 0x742, 0x605, 0x61A]  # low byte: 00, f1, ff, digits only, leading zero, mixed
+
+
+def new_items(tier: str) -> list[tuple[Any, ...]]:
+    quick = tier == "quick"
+    out: list[tuple[Any, ...]] = [("notation",)]
+    out += [("wire", "isotp", p) for p in range(5)] + [("wire", "can-raw", 0), ("wire", "hsfz", 0), ("wire", "doip", 0)]
+    # ISO-TP discovery, extended addressing: all 256 address bytes x tester classes x padding x frame formats
+    for tester in SCAN_TESTERS + [0x18DA42F1, 0x1FFFFFFF]:
+        for padding in (None, 0, 0xAA):
+            for is_fd in (False, True):
+                for is_ext in (False, True):
+                    if tester > 0x7FF and not is_ext:
+                        continue
+                    out.append(("scan-isotp", "can0" if is_fd else "vcan0", True, tester, padding, is_fd, is_ext, 0, 255, 0x18DA0000 if is_ext else 0x700))
+    # normal addressing: windows at the boundaries of the 11 and 29 bit id spaces
+    for is_ext, windows in ((False, [(0, 0x2F), (0x7D0, 0x7FF)]), (True, [(0, 0x2F), (0x7D0, 0x82F), (0x18DAF100, 0x18DAF1FF), (0x1FFFFFD0, 0x1FFFFFFF)])):
+        for lo, hi in windows:
+            for padding in (None, 0, 0xAA):
+                for is_fd in (False, True):
+                    out.append(("scan-isotp", "can0", False, 0x6F1, padding, is_fd, is_ext, lo, hi, 0x8))
+    # HSFZ discovery: all 256 destination addresses
+    for host in WIRE_HOSTS if quick else HOSTS:
+        for port in (1, 6801) if quick else (0, 1, 6801, 65535):
+            for src in (0, 0xF4, 0xFF):
+                out.append(("scan-hsfz", host, port, src))
+    # DoIP discovery (IPv4 / names only, see ASSUMPTIONS): target address windows, thorough: the whole 16 bit space
+    windows = [(0, 0x3F), (0x0DF0, 0x0E2F), (0xFFC0, 0xFFFF)] if quick else [(lo, lo + 0xFFF) for lo in range(0, 0x10000, 0x1000)]
+    n = 0
+    for host in ("ecu-1.example.com", "0.0.0.0", "192.168.0.1"):
+        for port in (1, 13400, 65535):
+            for pv in (2, 3):
+                for rat, src in ((0, 0x0E00), (0xE0, 0), (0xFF, 0xFFFF), (1, 0x0E80)):
+                    lo, hi = windows[n % len(windows)]
+                    n += 1
+                    out.append(("scan-doip", host, port, pv, rat, src, lo, hi))
+    if not quick:
+        for lo, hi in windows:
+            out.append(("scan-doip", "192.168.0.1", 13400, 3, 0, 0x0E00, lo, hi))
+    return out
+
+
+NEW_KINDS: dict[str, Any] = {
+    "notation": run_notation,
+    "wire": run_wire,
+    "scan-isotp": run_scan_isotp,
+    "scan-hsfz": run_scan_hsfz,
+    "scan-doip": run_scan_doip,
+}
+
+
+def _replay_scan_isotp(res: Result, doc: dict[str, Any]) -> None:
+    a = list(doc["args"])
+    if "key" in doc:
+        a[6] = a[7] = doc["key"]
+    run_scan_isotp(res, *a)
+
+
+NEW_REPLAYS: dict[str, Any] = {
+    "wire": replay_wire,
+    "notation": lambda res, doc: check_notation(res, doc["entry"], doc["text"], doc["value"]),
+    "scan-isotp": _replay_scan_isotp,
+    "scan-hsfz": lambda res, doc: run_scan_hsfz(res, *doc["args"]),
+    "scan-doip": lambda res, doc: run_scan_doip(res, *doc["args"]),
+}
+
+
+# ---------------------------------------------------------------------------------------------
 # runner interface
 
 
@@ -1153,7 +1749,7 @@ def items(tier: str, seed: int) -> list[tuple[Any, ...]]:
     for h in HOSTS:
         out.append(("hsfz", [h]))
     out.append(("hsfz", []))
-    out.append(("isotp",))
+    out += new_items(tier)
     out.append(("doip",))
     # ranges 1-D
     out.append(("r1", "full", 0, (), "entries"))
@@ -1239,8 +1835,8 @@ def run_item(item: tuple[Any, ...]) -> Result:
         run_uri(res, item[1], item[2], item[3], item[4], tuple(item[5]), [tuple(x) for x in item[6]], item[7])
     elif kind == "hsfz":
         run_hsfz(res, item[1])
-    elif kind == "isotp":
-        run_isotp(res)
+    elif kind in NEW_KINDS:
+        NEW_KINDS[kind](res, *item[1:])
     elif kind == "doip":
         run_doip(res)
     elif kind == "r1":
@@ -1273,8 +1869,8 @@ def replay(doc: dict[str, Any]) -> Result:
             check_hsfz_probe(res, loop, doc["host"], doc["port"], doc["src"], doc["dst"], doc["ack"])
         finally:
             loop.close()
-    elif kind == "isotp":
-        check_isotp_block(res, *doc["args"])
+    elif kind in NEW_REPLAYS:
+        NEW_REPLAYS[kind](res, doc)
     elif kind == "doip":
         check_doip_fstring(res, doc["label"], *doc["args"])
     elif kind == "r1":
@@ -1295,9 +1891,13 @@ def finish(merged: Result, tier: str) -> dict[str, Any]:
     missing = [k for k in need if not by_kind.get(k)]
     if missing:
         raise Broken(f"vacuous: no case evaluated for {missing}")
-    for k in ("builder-isotp", "builder-doip"):
-        if not by_kind.get(k) and not any(k.split("-")[1] in u for u in merged.uncovered):
-            raise Broken(f"vacuous: {k} neither evaluated nor reported uncovered")
+    if not by_kind.get("builder-doip") and not any("doip" in u for u in merged.uncovered):
+        raise Broken("vacuous: builder-doip neither evaluated nor reported uncovered")
+    for k in ("scanner-isotp", "scanner-hsfz", "scanner-doip", "wire-isotp", "wire-hsfz", "wire-doip", "wire-can-raw", "notation"):
+        if not by_kind.get(k):
+            raise Broken(f"vacuous: no case evaluated for {k}")
+    if not merged.counters.get("scanner_uris_checked"):
+        raise Broken("vacuous: the scanners emitted no URI")
     if not merged.counters.get("uri_roundtrips_ok"):
         raise Broken("vacuous: not a single URI round trip succeeded")
     if not merged.counters.get("config_validations"):
